@@ -36,7 +36,7 @@ def verify_one(args):
         groups.setdefault(tuple(id(h) for h in o.hyps) if False else len(groups) if o.kind == "canary" else ("g", id(o.hyps)), []).append(o)
     for o in obls:
         if o.kind == "canary":
-            (st, dt, why), = discharge(o.hyps, [o.goal], min(timeout_ms, 5000))
+            (st, dt, why), = discharge(o.hyps, [o.goal], min(timeout_ms, 2500), portfolio=False)
             # a canary is fine when False is NOT provable
             status = "vacuous" if st == "discharged" else "ok"
         else:
